@@ -184,7 +184,8 @@ def run(rep, tier, seed, build):
     obl, dis, pproblems = proof_audit("props/C06.v", THEOREMS, build["coq"])
     n = 120 if tier == "quick" else 3000
     scs = [schedule(seed * 179424673 + i) for i in range(n)]
-    res = pmap(judge, scs, workers=12)
+    from common import pmap_confirm
+    res, unconf = pmap_confirm(judge, scs, lambda x: bool(x["problems"]), workers=12)
     bad = [x for x in res if x["problems"]]
     known, unknown = [], []
     for x in bad:
@@ -200,7 +201,7 @@ def run(rep, tier, seed, build):
         rep.violation("# C06: %s: %s\n# schedule (%s, pause at %s, maintenance in window: %s):\n%s# observations: %s\n"
                       % (x["problems"][0][0], x["problems"][0][1], x["sc"]["mode"], x["sc"]["site"], x["sc"]["maint"],
                          x["sc"]["prog"], {k: v for k, v in sorted(x["obs"].items())}))
-    rc_ = pmap(race, [seed * 13 + i for i in range(6 if tier == "quick" else 60)], workers=6)
+    rc_, unconf2 = pmap_confirm(race, [seed * 13 + i for i in range(6 if tier == "quick" else 60)], lambda x: bool(x["bad"]), workers=6)
     for x in [x for x in rc_ if x["bad"]][:2]:
         rep.violation("# C06: lock hand-over race: a snapshot taken while a batch was held after its first item sees part of it: %s\n%s"
                       % (x["bad"][0], x["prog"]))
@@ -208,7 +209,7 @@ def run(rep, tier, seed, build):
     for x in [x for x in st if x["bad"]][:2]:
         rep.violation("# C06: a snapshot taken while %d writers commit 4-key batches (no maintenance running) shows a torn or "
                       "out-of-order batch: %s\n%s" % (x["writers"], x["bad"][0], x["prog"]))
-    rep.coverage = dict(evaluations=n + sum(x["snapshots"] for x in st), stress_runs=len(st), race_rounds=8 * len(rc_),
+    rep.coverage = dict(unconfirmed_alarms=unconf + unconf2, evaluations=n + sum(x["snapshots"] for x in st), stress_runs=len(st), race_rounds=8 * len(rc_),
                         stress_snapshots=sum(x["snapshots"] for x in st), distinct_nontrivial=len({(x["sc"]["site"], x["sc"]["maint"], x["sc"]["mode"], len(x["sc"]["items"]), x["sc"]["tx"]) for x in res}),
                         rule="schedules: a batch or transaction commit of 2-5 items over two keyspaces is held at a pause point (after "
                              "the seqno draw / after the i-th item / before publish); inside the window a reader opens a snapshot and "
